@@ -314,3 +314,167 @@ Section BlockPos.
         destruct (leaf_eqb l' l) eqn:Eq; [|reflexivity]. apply leaf_eqb_eq in Eq. subst l'. rewrite El in Hv. discriminate.
   Qed.
 End BlockPos.
+
+Lemma m_lnl_pos m a KT KL : m_wf m = true -> m_keys m KT KL ->
+  (if ml_symL m then length KL else length KL + length KL) <= length a ->
+  snd (m_set_lnl_spread_params m a []) <> None ->
+  exists tr qI qC r, mid_rel tr m (fst (m_set_lnl_spread_params m a [])) /\
+    (forall l u, skel (tr l u) u) /\ (forall l u, Sync.same_config (tr l u) u) /\ (forall l u, u_T (tr l u) = u_T u) /\
+    (forall l u, In l ipsi_ids -> ml_leaf m l = Some u -> u_L (tr l u) = combine KL qI) /\
+    (forall l u, In l contra_ids -> ml_leaf m l = Some u -> u_L (tr l u) = combine KL qC) /\
+    (ml_symL m = true -> qC = qI) /\
+    ml_mixing (fst (m_set_lnl_spread_params m a [])) = ml_mixing m /\
+    snd (m_set_lnl_spread_params m a []) = Some r /\
+    length r = length a - (if ml_symL m then length KL else length KL + length KL).
+Proof.
+  intros Hwf Hk Hla Hret.
+  assert (HkL : forall l u, ml_leaf m l = Some u -> map fst (u_L u) = KL) by (intros l u E; apply (Hk l u E)).
+  assert (HlenL : forall l u, ml_leaf m l = Some u -> length (u_L u) = length KL).
+  { intros l u E. rewrite <- (map_length fst (u_L u)), (HkL l u E). reflexivity. }
+  unfold m_set_lnl_spread_params in *. rewrite unflatten_nil in *.
+  change (obj_kwargs "ipsi" [] []) with (@nil (path * val)) in *. change (obj_kwargs "contra" [] []) with (@nil (path * val)) in *.
+  destruct (ml_symL m) eqn:EsL.
+  - set (ids := [LCentralIpsi; LCentralContra; LExtIpsi; LExtContra; LNoextIpsi; LNoextContra]) in *.
+    assert (HallL : forall l u, In l ids -> ml_leaf m l = Some u -> u_names_ok u = true /\ length (u_L u) = length KL).
+    { intros l u _ E. split; [apply (wf_leaf_names_ok m l u Hwf E) | apply (HlenL l u E)]. }
+    destruct (lnl_block_pos a (length KL) Hla ids m NoDup_all_ids) as (qs & E & Hlen & R & Hrel & Hmix);
+      [discriminate | cbn; discriminate | exact HallL | exact Hret |].
+    exists (lnl_put qs ids), qs, qs, (skipn (length KL) a). split; [exact Hrel|].
+    split; [intros; apply lnl_put_skel|]. split; [intros; apply lnl_put_config|]. split; [intros; apply lnl_put_T|].
+    split; [|split; [|split; [reflexivity|split; [exact Hmix|split; [exact R | apply skipn_length]]]]].
+    + intros l u Hl Eu. assert (Hin : In l ids) by (unfold ids, ipsi_ids in *; cbn in *; tauto).
+      rewrite lnl_put_L_in; [rewrite (HkL l u Eu); reflexivity | exact Hin | rewrite (HlenL l u Eu); exact Hlen].
+    + intros l u Hl Eu. assert (Hin : In l ids) by (unfold ids, contra_ids in *; cbn in *; tauto).
+      rewrite lnl_put_L_in; [rewrite (HkL l u Eu); reflexivity | exact Hin | rewrite (HlenL l u Eu); exact Hlen].
+  - destruct (andthen_ok _ _ Hret) as (a1 & Ha1 & Heq). rewrite Heq in *.
+    set (idsI := [LCentralIpsi; LExtIpsi; LNoextIpsi]) in *. set (idsC := [LCentralContra; LExtContra; LNoextContra]) in *.
+    assert (HallI : forall l u, In l idsI -> ml_leaf m l = Some u -> u_names_ok u = true /\ length (u_L u) = length KL).
+    { intros l u _ E. split; [apply (wf_leaf_names_ok m l u Hwf E) | apply (HlenL l u E)]. }
+    assert (Hla1 : length KL <= length a) by lia.
+    destruct (lnl_block_pos a (length KL) Hla1 idsI m NoDup_ipsi_block) as (qI & EI & HlenI & RI & HrelI & HmixI);
+      [discriminate | cbn; discriminate | exact HallI | rewrite Ha1; discriminate |].
+    set (m1 := fst (m_set_lnl_block m idsI a [])) in *.
+    rewrite RI in Ha1. injection Ha1 as <-.
+    assert (Hwf1 : m_wf m1 = true) by (apply (mid_rel_wf _ m m1 HrelI); [intros; apply lnl_put_skel | exact Hwf]).
+    assert (Hc1 : forall l, In l idsC -> ml_leaf m1 l = ml_leaf m l).
+    { intros l Hl. rewrite (mr_leaf _ _ _ HrelI l). destruct (ml_leaf m l) as [u|]; [|reflexivity]. cbn [option_map].
+      unfold lnl_put.
+      assert (Hn : inb l idsI = false) by (apply inb_false; unfold idsI, idsC in *; cbn in *; intuition congruence).
+      rewrite Hn. reflexivity. }
+    assert (HallC : forall l u, In l idsC -> ml_leaf m1 l = Some u -> u_names_ok u = true /\ length (u_L u) = length KL).
+    { intros l u Hl E. split; [apply (wf_leaf_names_ok m1 l u Hwf1 E)|]. rewrite Hc1 in E by exact Hl. apply (HlenL l u E). }
+    assert (Hla2 : length KL <= length (skipn (length KL) a)) by (rewrite skipn_length; lia).
+    destruct (lnl_block_pos _ (length KL) Hla2 idsC m1 NoDup_contra_block) as (qC & EC & HlenC & RC & HrelC & HmixC);
+      [discriminate | cbn; discriminate | exact HallC | exact Hret |].
+    pose proof (mid_rel_trans _ _ _ _ _ HrelI HrelC) as Hrel. cbv beta in Hrel.
+    eexists. exists qI, qC, (skipn (length KL) (skipn (length KL) a)). split; [exact Hrel|].
+    split; [intros; eapply skel_trans; apply lnl_put_skel|].
+    split; [intros; eapply same_config_trans; apply lnl_put_config|].
+    split; [intros; rewrite !lnl_put_T; reflexivity|].
+    split; [|split; [|split; [intros C; discriminate C|split; [rewrite HmixC; exact HmixI|split; [exact RC | rewrite !skipn_length; lia]]]]].
+    + intros l u Hl Eu. assert (Hin : In l idsI) by (unfold idsI, ipsi_ids in *; cbn in *; tauto).
+      assert (Hout : ~ In l idsC) by (unfold idsC, ipsi_ids in *; cbn in *; intuition congruence).
+      rewrite lnl_put_L_out by exact Hout.
+      rewrite lnl_put_L_in; [rewrite (HkL l u Eu); reflexivity | exact Hin | rewrite (HlenL l u Eu); exact HlenI].
+    + intros l u Hl Eu. assert (Hin : In l idsC) by (unfold idsC, contra_ids in *; cbn in *; tauto).
+      assert (Hout : ~ In l idsI) by (unfold idsI, contra_ids in *; cbn in *; intuition congruence).
+      rewrite lnl_put_L_in; [|exact Hin | rewrite lnl_put_L_out by exact Hout; rewrite (HlenL l u Eu); exact HlenC].
+      rewrite lnl_put_L_out by exact Hout. rewrite (HkL l u Eu). reflexivity.
+Qed.
+
+(** * Midline.set_distribution_params, positional *)
+Lemma dists_items_len_sim ds1 : forall ds2, Forall2 dist_sim (map snd ds1) (map snd ds2) ->
+  length (dists_items ds1) = length (dists_items ds2).
+Proof.
+  induction ds1 as [|[t1 d1] r IH]; intros [|[t2 d2] r2] H; cbn [map snd] in H; inversion H; subst; [reflexivity|].
+  unfold dists_items. cbn [flat_map fst snd]. rewrite !app_length. unfold pre at 1 3. rewrite !map_length. f_equal.
+  - apply (dist_put_sim 0 d1 d2 []). assumption.
+  - apply IH. assumption.
+Qed.
+Lemma config_sim_dist_len u v : config_sim u v -> length (u_dist_items u) = length (u_dist_items v).
+Proof. intros (_ & _ & _ & H). apply dists_items_len_sim, H. Qed.
+
+Lemma b_dist_pos_ex b a : b_names_ok b = true -> length (u_dist_items (b_ipsi b)) <= length a ->
+  snd (b_set_distribution_params b a []) <> None ->
+  exists ds0, dists_put (u_maxt (b_ipsi b)) (u_dists (b_ipsi b)) (firstn (length (u_dist_items (b_ipsi b))) a) = Some ds0.
+Proof.
+  intros Hok Hla Hret. pose proof (b_dist_step b a [] Hok) as Hs.
+  rewrite (plan_pos (side_lk "ipsi" [])) in Hs by (try apply side_lk_nil; exact Hla).
+  destruct (dists_put (u_maxt (b_ipsi b)) (u_dists (b_ipsi b)) _) as [dsi|]; [exists dsi; reflexivity | contradiction].
+Qed.
+
+Lemma b_dist_pos b a u0 ds0 : b_names_ok b = true -> config_sim (b_ipsi b) u0 -> config_sim (b_contra b) u0 ->
+  length (u_dist_items u0) <= length a ->
+  dists_put (u_maxt u0) (u_dists u0) (firstn (length (u_dist_items u0)) a) = Some ds0 ->
+  snd (b_set_distribution_params b a []) <> None ->
+  fst (b_set_distribution_params b a []) = bmap (fun u => u_with_dists u ds0) b.
+Proof.
+  intros Hok Hi Hc Hla Hd Hret. pose proof (b_dist_step b a [] Hok) as Hs.
+  pose proof (config_sim_dist_len _ _ Hi) as Li. pose proof (config_sim_dist_len _ _ Hc) as Lc.
+  rewrite (plan_pos (side_lk "ipsi" [])) in Hs by (try apply side_lk_nil; lia).
+  rewrite (plan_pos (side_lk "contra" [])) in Hs by (try apply side_lk_nil; lia).
+  rewrite Li, Lc in Hs.
+  destruct Hi as (_ & Mi & Ki & Si). destruct Hc as (_ & Mc & Kc & Sc). rewrite Mi, Mc in Hs.
+  destruct (dists_put (u_maxt u0) (u_dists (b_ipsi b)) _) as [dsi|] eqn:Ei; [|contradiction].
+  destruct (dists_put (u_maxt u0) (u_dists (b_contra b)) _) as [dsc|] eqn:Ec; [|contradiction].
+  rewrite (dists_put_sim _ _ _ _ _ _ Ki Si Ei Hd), (dists_put_sim _ _ _ _ _ _ Kc Sc Ec Hd) in Hs.
+  rewrite Hs. reflexivity.
+Qed.
+
+Ltac norm_ml :=
+  unfold ml_with_unknown, ml_with_central, ml_with_noext, ml_with_ext, ml_with_models;
+  cbn [fst ml_ext ml_noext ml_central ml_unknown ml_mixing ml_midext ml_evo ml_symL option_map].
+
+Lemma m_dist_pos m a : m_wf m = true -> m_config_sim m -> length (u_dist_items (ext_i m)) <= length a ->
+  snd (m_set_distribution_params m a []) <> None ->
+  exists ds0, fst (m_set_distribution_params m a []) = m_map (fun u => u_with_dists u ds0) m.
+Proof.
+  intros Hwf Hsim Hla.
+  destruct (wf_parts m Hwf) as (Hoke & Hokn & Hokc).
+  assert (Hokk : forall k, ml_unknown m = Some k -> b_names_ok k = true).
+  { intros k Ek. unfold m_wf in Hwf. rewrite !andb_true_iff in Hwf. destruct Hwf as [_ Hk]. rewrite Ek in Hk. exact Hk. }
+  assert (HsL : forall l u, ml_leaf m l = Some u -> config_sim u (ext_i m)).
+  { intros l u E. apply Hsim, in_all_leaves. left. exists l. exact E. }
+  assert (HsK : forall k, ml_unknown m = Some k -> config_sim (b_ipsi k) (ext_i m) /\ config_sim (b_contra k) (ext_i m)).
+  { intros k E. split; apply Hsim, in_all_leaves; right; exists k; tauto. }
+  unfold m_set_distribution_params. rewrite unflatten_nil.
+  change (obj_kwargs "ext" [] []) with (@nil (path * val)). change (obj_kwargs "noext" [] []) with (@nil (path * val)).
+  change (obj_kwargs "central" [] []) with (@nil (path * val)). change (obj_kwargs "unknown" [] []) with (@nil (path * val)).
+  destruct (b_set_distribution_params (ml_ext m) a []) as [e' o1] eqn:E1. destruct o1 as [r1|]; [|intros C; contradiction].
+  destruct (b_dist_pos_ex (ml_ext m) a Hoke Hla) as (ds0 & Ed0); [rewrite E1; discriminate|]. fold (ext_i m) in Ed0.
+  pose proof (b_dist_pos (ml_ext m) a (ext_i m) ds0 Hoke (HsL LExtIpsi _ eq_refl) (HsL LExtContra _ eq_refl) Hla Ed0) as X1.
+  rewrite E1 in X1. cbn [fst snd] in X1. specialize (X1 ltac:(discriminate)). subst e'.
+  change (ml_noext (ml_with_ext m (bmap (fun u => u_with_dists u ds0) (ml_ext m)))) with (ml_noext m).
+  destruct (b_set_distribution_params (ml_noext m) a []) as [n' o2] eqn:E2. destruct o2 as [r2|]; [|intros C; contradiction].
+  pose proof (b_dist_pos (ml_noext m) a (ext_i m) ds0 Hokn (HsL LNoextIpsi _ eq_refl) (HsL LNoextContra _ eq_refl) Hla Ed0) as X2.
+  rewrite E2 in X2. cbn [fst snd] in X2. specialize (X2 ltac:(discriminate)). subst n'.
+  match goal with |- context [ml_central (ml_with_noext ?M ?B)] => change (ml_central (ml_with_noext M B)) with (ml_central m) end.
+  exists ds0. revert H. unfold m_map.
+  destruct (ml_central m) as [c|] eqn:Ec.
+  - destruct (b_set_distribution_params c a []) as [c' o3] eqn:E3. destruct o3 as [r3|]; [|intros C; contradiction].
+    destruct (Hokc c eq_refl) as [Hcok _].
+    pose proof (b_dist_pos c a (ext_i m) ds0 Hcok (HsL LCentralIpsi _ ltac:(cbn; rewrite Ec; reflexivity))
+                  (HsL LCentralContra _ ltac:(cbn; rewrite Ec; reflexivity)) Hla Ed0) as X3.
+    rewrite E3 in X3. cbn [fst snd] in X3. specialize (X3 ltac:(discriminate)). subst c'.
+    match goal with |- context [ml_unknown (ml_with_central ?M ?B)] => change (ml_unknown (ml_with_central M B)) with (ml_unknown m) end.
+    destruct (ml_unknown m) as [k|] eqn:Ek.
+    + destruct (b_set_distribution_params k a []) as [k' o4] eqn:E4. cbn [fst snd]. intros Hret.
+      destruct (HsK k eq_refl) as [Ki Kc].
+      pose proof (b_dist_pos k a (ext_i m) ds0 (Hokk k eq_refl) Ki Kc Hla Ed0) as X4.
+      rewrite E4 in X4. cbn [fst snd] in X4. specialize (X4 Hret). subst k'.
+      norm_ml. reflexivity.
+    + intros _.
+      norm_ml.
+      rewrite Ek. reflexivity.
+  - match goal with |- context [ml_unknown (ml_with_noext ?M ?B)] => change (ml_unknown (ml_with_noext M B)) with (ml_unknown m) end.
+    destruct (ml_unknown m) as [k|] eqn:Ek.
+    + destruct (b_set_distribution_params k a []) as [k' o4] eqn:E4. cbn [fst snd]. intros Hret.
+      destruct (HsK k eq_refl) as [Ki Kc].
+      pose proof (b_dist_pos k a (ext_i m) ds0 (Hokk k eq_refl) Ki Kc Hla Ed0) as X4.
+      rewrite E4 in X4. cbn [fst snd] in X4. specialize (X4 Hret). subst k'.
+      norm_ml.
+      rewrite Ec. reflexivity.
+    + intros _.
+      norm_ml.
+      rewrite Ec, Ek. reflexivity.
+Qed.
